@@ -69,7 +69,7 @@ func (b *Builder) Str(t types.Type) string {
 	case *types.Struct:
 		return b.structStr(t)
 	case *types.Map:
-		return "map[" + b.Str(t.Key()) + "]" + b.realStr(t.Elem())
+		return "map[" + b.realStr(t.Key()) + "]" + b.realStr(t.Elem())
 	case *types.Array:
 		return "[" + strconv.Itoa(int(t.Len())) + "]" + b.realStr(t.Elem())
 	case *types.Chan:
@@ -136,7 +136,7 @@ func (b *Builder) reflectTypeArgBaseString(t types.Type) string {
 	case *types.Array:
 		return "[" + strconv.Itoa(int(t.Len())) + "]" + b.reflectTypeArgString(t.Elem())
 	case *types.Map:
-		return "map[" + b.reflectTypeArgBaseString(t.Key()) + "]" + b.reflectTypeArgString(t.Elem())
+		return "map[" + b.reflectTypeArgString(t.Key()) + "]" + b.reflectTypeArgString(t.Elem())
 	case *types.Chan:
 		_, s := ChanDir(t.Dir())
 		return s + " " + b.reflectTypeArgString(t.Elem())
